@@ -63,7 +63,11 @@ def run(lines, out, args):
         return st["vals"][i]
 
     def name_of(s):
-        return int(s[1:]) if s.startswith("#") else s
+        # non-string names: `#<int>` (0 is falsy) and the falsy / truthy kinds the name check must reject on every path, cache hit included
+        if not s.startswith("#"):
+            return s
+        kinds = {"#N": None, "#F": False, "#b": b"", "#t": (), "#f": 0.0, "#B": b"a", "#o": object(), "#T": ("",), "#fs": frozenset()}
+        return kinds[s] if s in kinds else int(s[1:])
 
     def nid(x):
         for k, v in st["nodes"].items():
